@@ -438,8 +438,112 @@ func runHookNested(f []string) string {
 	return sb.String()
 }
 
+// nest <mode r|g> <ret> <cfg> <cerr> <perr> <def> <rt> <req N|F0|F1> <k> <ffail> <cfail> <pfail>
+//
+// Overlapping creations of the same registered entry: the fillConf handed to New / NewFactory,
+// before it writes its own settings, lets another Registry.New of the same (type, name) run to
+// completion - inline (mode r: a nested component of the same entry created from inside the
+// decode) or in a second goroutine the fill waits for (mode g: a concurrent creation that falls
+// into this one's decode window).  The inner creation uses the plain fill.  Events are logged
+// flat; the inner creation appears as  [ <events> => <outcome> ]  inside the outer one's events.
+func runNest(f []string) string {
+	if len(f) != 13 {
+		return "unknown-case"
+	}
+	mode, ret, cfg, def, rt, req := f[1], f[2], f[3], f[6], f[7], f[8]
+	k, _ := strconv.Atoi(f[9])
+	r := &rec{cerr: f[4] == "1", perr: f[5] == "1", ffail: parseSet(f[10]), cfail: parseSet(f[11]), pfail: parseSet(f[12])}
+	resT := ifaceT
+	if rt == "M" {
+		resT = implT
+	}
+	reg := plugin.NewRegistry()
+	args := []interface{}{}
+	if def != "-" {
+		args = append(args, r.defaultFn(cfg, def))
+	}
+	reg.Register(ifaceT, "x", r.constructor(ret, cfg, resT), args...)
+	innerNew := func() string {
+		return guarded(func() string { return describe(reg.New(ifaceT, "x", r.fill)) })
+	}
+	fillRe := func(conf interface{}) error {
+		n := r.nFill
+		r.nFill++
+		p, isCfg := conf.(*Cfg)
+		switch {
+		case isCfg && p != nil:
+			r.ev(fmt.Sprintf("F%d:#%d:%s", n, r.id(p), cv(*p)))
+		case isCfg:
+			r.ev(fmt.Sprintf("F%d:nil:0,0,0", n))
+		default:
+			r.ev(fmt.Sprintf("F%d:E:0,0,0", n))
+		}
+		r.ev("[")
+		var inner string
+		if mode == "g" {
+			done := make(chan string)
+			go func() { done <- innerNew() }()
+			inner = <-done
+		} else {
+			inner = innerNew()
+		}
+		r.ev("=> " + inner + " ]")
+		if isCfg && p != nil {
+			p.B = 300 + n
+		}
+		if r.ffail[n] {
+			return &stageErr{"fill", n}
+		}
+		if isCfg && p != nil {
+			p.C = 400 + n
+		}
+		return nil
+	}
+	var sb strings.Builder
+	if req == "N" {
+		sb.WriteString("nestnew")
+		for i := 0; i < k; i++ {
+			out := guarded(func() string { return describe(reg.New(ifaceT, "x", fillRe)) })
+			sb.WriteString(" | " + r.take() + " => " + out)
+		}
+		return sb.String()
+	}
+	var ft reflect.Type
+	if req == "F1" {
+		ft = reflect.TypeOf((func() (Iface, error))(nil))
+	} else {
+		ft = reflect.TypeOf((func() Iface)(nil))
+	}
+	var fac interface{}
+	cout := guarded(func() string {
+		var err error
+		fac, err = reg.NewFactory(ft, "x", fillRe)
+		if err != nil {
+			return "err:" + classify(err)
+		}
+		return "ok"
+	})
+	sb.WriteString("nestfac " + r.take() + " => " + cout)
+	if cout != "ok" {
+		return sb.String()
+	}
+	for i := 0; i < k; i++ {
+		out := guarded(func() string {
+			if req == "F1" {
+				return describe(fac.(func() (Iface, error))())
+			}
+			return describe(fac.(func() Iface)(), nil)
+		})
+		sb.WriteString(" | " + r.take() + " => " + out)
+	}
+	return sb.String()
+}
+
 func runCase(c string) string {
 	f := strings.Split(c, " ")
+	if f[0] == "nest" {
+		return runNest(f)
+	}
 	if f[0] == "hook" {
 		return runHook(f)
 	}
@@ -621,6 +725,51 @@ func gen(r *vh.Rand, tier string) []string {
 			for _, req := range []string{"N", "F1"} {
 				for _, k := range []int{1, 2, 4} {
 					out = append(out, fmt.Sprintf("hook %s %s %s %d %d", cfg, def, req, 7+k, k))
+				}
+			}
+		}
+	}
+	// overlapping creations of the same entry: every shape with a config; New k times, and (plugin
+	// constructors) NewFactory + k calls; inline and from a second goroutine; no failure, then every
+	// single failure position of the fills (outer and inner alternate) and of the constructor
+	for _, mode := range []string{"r", "g"} {
+		for _, ret := range []string{"P", "F"} {
+			for _, cfg := range []string{"S", "P"} {
+				for _, cerr := range []bool{false, true} {
+					for _, perr := range []bool{false, true} {
+						if ret == "P" && perr {
+							continue
+						}
+						defs := []string{"-", "V"}
+						if cfg == "P" {
+							defs = append(defs, "Z")
+						}
+						for _, def := range defs {
+							for _, rt := range []string{"I", "M"} {
+								reqs := []string{"N"}
+								if ret == "P" {
+									reqs = []string{"N", "F0", "F1"}
+								}
+								for _, req := range reqs {
+									for _, k := range []int{1, 2} {
+										head := fmt.Sprintf("nest %s %s %s %s %s %s %s %s %d", mode, ret, cfg, b(cerr), b(perr), def, rt, req, k)
+										out = append(out, head+" - - -")
+										for i := 0; i < 2*k+2; i++ {
+											out = append(out, fmt.Sprintf("%s %d - -", head, i))
+										}
+										if cerr {
+											for i := 0; i < 2*k; i++ {
+												out = append(out, fmt.Sprintf("%s - %d -", head, i))
+											}
+										}
+										if ret == "F" && perr {
+											out = append(out, head+" - - 0", head+" - - 1")
+										}
+									}
+								}
+							}
+						}
+					}
 				}
 			}
 		}
